@@ -20,7 +20,7 @@ RULE = ("schemas with mutable defaults on typed lists/dicts (scalars, dict items
         "load of the unchanged files; hand-made argparse namespaces (known options, options a dynamic or fixed section "
         "does not declare) go through cmdline_args_override; non-trivial = >= 3 "
         "operations applied with >= 1 in-place mutation or dynamic field; distinct = distinct (schema, history)")
-REQUIRED = ("hand_written_documents_with_unknown_names", "inner_containers_changed_in_place", "asdict_results_changed_in_place", "failed_include_loads", "foreign_method_secrets_loaded", "schemas_with_environment_prefix", "resets_then_inplace_mutations", "cmdline_namespaces_applied", "same_document_loads", "cross_assignments", "serialisations_applied", "twin_before_checks", "twin_after_checks", "fingerprint_checks", "shared_item_checks", "ops_applied",
+REQUIRED = ("schemas_with_encoded_values_in_default_items", "hand_written_documents_with_unknown_names", "inner_containers_changed_in_place", "asdict_results_changed_in_place", "failed_include_loads", "foreign_method_secrets_loaded", "schemas_with_environment_prefix", "resets_then_inplace_mutations", "cmdline_namespaces_applied", "same_document_loads", "cross_assignments", "serialisations_applied", "twin_before_checks", "twin_after_checks", "fingerprint_checks", "shared_item_checks", "ops_applied",
             "inplace_mutations", "dynamic_fields_added")
 ASSUMPTIONS = ["deep mutation inside an *untyped* default (ListField(default=[[1]]), Field(default=[...])) is out of "
                "scope: the property quantifies over mutable defaults on typed fields"]
@@ -58,6 +58,20 @@ def generate(rng, ctx):
                 node["key"] = key
                 schema["fields"].append(node)
                 nested.append((key, x))
+    if rng.random() < 0.4 and all(ch["key"] != "lc0" for ch in schema["fields"]):
+        # a list of configurations whose declared default gives, as mappings, items that hold typed lists of values with
+        # an on-disk form of their own (bytes as base64 / hex text) - also one level further down
+        enc = rng.choice(["base64", "hex"])
+        B = {"kind": "field", "family": "bytes", "params": {"encoding": enc}}
+        texts = ["AP8=", "eHl6"] if enc == "base64" else ["00ff", "78797a"]
+        item = {"kind": "schema", "key": "", "fields": [
+            {"kind": "field", "key": "rows", "family": "list", "params": {}, "item": dict(B)},
+            {"kind": "field", "key": "grid", "family": "list", "params": {}, "item": {"kind": "field", "family": "list", "params": {}, "item": dict(B)}},
+            {"kind": "field", "key": "tag", "family": "str", "params": {"default": "t"}}]}
+        default = [{"rows": list(texts), "grid": [list(texts), [texts[0]]], "tag": "one"}, {"rows": [texts[1]]}]
+        if all(model.accepts_tree(item, t, env)[0] is True for t in default):
+            schema["fields"].append({"kind": "field", "key": "lc0", "family": "list", "params": {"default": default}, "item": item})
+            schema["encoded_item_defaults"] = True
     n = rng.randrange(4, 40 if thorough else 22)
     ops = history.gen_ops(rng, schema, env, n, bad=0.15)
     ops = [op for op in ops if op["op"] != "cmdline"]
@@ -286,9 +300,17 @@ def run(case, ctx, res):
         if any(k.upper().startswith("VFC13") for k in os.environ):
             return
         res.count("schemas_with_environment_prefix")
+    if case["schema"].get("encoded_item_defaults"):
+        res.count("schemas_with_encoded_values_in_default_items")
     drv = history.Driver(ctx, res, case["schema"], env)
     a = drv.cfg
-    b = cc.Config(drv.built.schema, key_filename=drv.keyfile)
+    try:
+        b = cc.Config(drv.built.schema, key_filename=drv.keyfile)
+    except Exception as exc:
+        # the first configuration of this schema was built a moment ago, with the same declared defaults
+        res.viol("M-twin", "second-configuration-cannot-be-built", "a first configuration of the schema was built, the second raised %s: %s" % (
+            type(exc).__name__, str(exc)[:200]))
+        return
     # (values the cross assignment needs are set first: the leading `set` operations of the nested containers)
     lead = 0
     for op in case["ops"]:
@@ -372,7 +394,12 @@ def run(case, ctx, res):
                     return
         if idx % 4 == 3 or idx == len(case["ops"]) - 1:
             res.count("twin_after_checks")
-            c = cc.Config(drv.built.schema, key_filename=drv.keyfile)
+            try:
+                c = cc.Config(drv.built.schema, key_filename=drv.keyfile)
+            except Exception as exc:
+                res.viol("M-twin", "later-configuration-cannot-be-built", "step %d: after %s at %r a further configuration of the schema "
+                         "cannot be built any more: %s: %s" % (idx, out["kind"], out["path"], type(exc).__name__, str(exc)[:200]))
+                return
             snap = Snapshot(c)
             d = model.match(expect_fresh, snap.values)
             if d:
